@@ -434,7 +434,7 @@ func genPrngPar(t *rapid.T) PrngParCase {
 	seed := rapid.SliceOfN(rapid.SliceOfN(rapid.Byte(), 0, 8), 0, 3)
 	return PrngParCase{
 		Seeds:  rapid.SliceOfN(seed, 1, 4).Draw(t, "seeds"),
-		G:      rapid.IntRange(2, 16).Draw(t, "g"),
+		G:      rapid.SampledFrom([]int{2, 3, 4, 8, 16, 16, 32, 48}).Draw(t, "g"),
 		Rounds: rapid.SampledFrom([]int{50, 200, 1000, 3000}).Draw(t, "rounds"),
 	}
 }
@@ -498,7 +498,7 @@ func genPrefixPar(t *rapid.T) PrefixParCase {
 	})
 	return PrefixParCase{
 		Sets: rapid.SliceOfN(set, 2, 4).Draw(t, "sets"),
-		G:    rapid.IntRange(2, 12).Draw(t, "g"),
+		G:    rapid.SampledFrom([]int{2, 3, 4, 8, 12, 32, 48}).Draw(t, "g"),
 		R:    rapid.SampledFrom([]int{20, 100, 400}).Draw(t, "r"),
 	}
 }
@@ -543,7 +543,7 @@ type PadParCase struct {
 
 func genPadPar(t *rapid.T) PadParCase {
 	n := rapid.IntRange(2, 6).Draw(t, "n")
-	c := PadParCase{G: rapid.IntRange(2, 16).Draw(t, "g"), R: rapid.SampledFrom([]int{50, 300, 2000}).Draw(t, "r")}
+	c := PadParCase{G: rapid.SampledFrom([]int{2, 3, 4, 8, 16, 16, 32, 48}).Draw(t, "g"), R: rapid.SampledFrom([]int{50, 300, 2000}).Draw(t, "r")}
 	for i := 0; i < n; i++ {
 		c.Lens = append(c.Lens, genLen(t, 100))
 		c.Spare = append(c.Spare, rapid.SampledFrom([]int{0, 0, 1, 5, 40}).Draw(t, "spare"))
@@ -598,15 +598,15 @@ func checkPadPar(v *ev.Verdict, c PadParCase) {
 }
 
 func TestC19PadPar(t *testing.T) {
-	drive(t, "2..6 message lengths (boundary-biased) with 0..40 bytes of spare capacity, 2..16 goroutines each padding and unpadding their own fresh buffers 50..2000 times in parallel; oracle: every call's result is a positive multiple of 32 long, starts with the caller's message and unpads to it; non-trivial always; distinct by input", genPadPar, checkPadPar)
+	drive(t, "2..6 message lengths (boundary-biased) with 0..40 bytes of spare capacity, 2..48 goroutines each padding and unpadding their own fresh buffers 50..2000 times in parallel; oracle: every call's result is a positive multiple of 32 long, starts with the caller's message and unpads to it; non-trivial always; distinct by input", genPadPar, checkPadPar)
 }
 
 func TestC19PrefixPar(t *testing.T) {
-	drive(t, "2..4 argument sets with long common prefixes, 2..12 goroutines each calling Prefix 20..400 times on them in parallel; oracle: every result equals the byte-wise longest common prefix computed beforehand; non-trivial always; distinct by input", genPrefixPar, checkPrefixPar)
+	drive(t, "2..4 argument sets with long common prefixes, 2..48 goroutines each calling Prefix 20..400 times on them in parallel; oracle: every result equals the byte-wise longest common prefix computed beforehand; non-trivial always; distinct by input", genPrefixPar, checkPrefixPar)
 }
 
 func TestC19PrngPar(t *testing.T) {
-	drive(t, "1..4 seed sets, 2..16 goroutines each building 50..3000 sources from them in parallel; oracle: the first four words of every source equal those of a source built from the same seed data sequentially; non-trivial iff >= 2 goroutines; distinct by input", genPrngPar, checkPrngPar)
+	drive(t, "1..4 seed sets, 2..48 goroutines (more than there are processors) each building 50..3000 sources from them in parallel; oracle: the first four words of every source equal those of a source built from the same seed data sequentially; non-trivial iff >= 2 goroutines; distinct by input", genPrngPar, checkPrngPar)
 }
 
 var _ = strings.Join
